@@ -77,8 +77,10 @@ fn k_c20_token_factory() {
     kani::cover!(true);
 }
 
-/// an exhausted factory (all 65536 sub-ids of the source handed out or about to be) fails loudly
-/// instead of handing out a token twice
+/// an exhausted factory (the last of the 65536 sub-ids of the source reached) fails loudly instead of
+/// handing out a token twice or wrapping around to an earlier one.  should_panic harness: Kani requires
+/// that a panic is reachable; the runner additionally requires that no TAGGED assertion is among the
+/// failed checks (vlib/kani.py), i.e. the only panic is calloop's own refusal.
 #[kani::proof]
 #[kani::should_panic]
 fn k_c20_token_factory_exhaustion() {
@@ -87,9 +89,10 @@ fn k_c20_token_factory_exhaustion() {
     f.next_token = TokenInner::from((raw & !0xffff) | 0xffff);
     let a = f.token();
     let b = f.token();
-    // not reached in a correct implementation; if it is, the two tokens must at least differ
+    // only reached if neither call refused:
     assert!(a != b, "C20.fac.exhausted_factory_hands_out_a_token_twice");
-    assert!(false, "C20.fac.exhausted_factory_does_not_fail_loudly");
+    assert!((usize::from(b.inner) & 0xffff) > (usize::from(a.inner) & 0xffff), "C20.fac.exhausted_factory_wraps_around");
+    assert!(false, "C20.fac.unreachable");
 }
 
 // ---------------------------------------------------------------- C02 / C16: poller table
@@ -172,6 +175,59 @@ fn k_c02_poll_reports_ready_fd() {
     }
     std::mem::forget(res2);
     kani::cover!(expect);
+    std::mem::forget(poll);
+}
+
+/// After a first report: an edge-triggered registration reports again after the readiness went away
+/// and came back (a NEW transition), a one-shot registration reports again after Poll::reregister
+/// (re-arming) and only then, and a level registration keeps reporting; the token of the latest
+/// (re)registration is the one carried (C02, C01).
+#[kani::proof]
+#[kani::stub(std::time::Instant::now, v_now)]
+#[kani::unwind(3)]
+fn k_c02_rearm_and_new_transition() {
+    let poll = match Poll::new() { Ok(p) => p, Err(e) => { std::mem::forget(e); return; } };
+    let fd = verif_world::alloc(verif_world::Kind::Plain).unwrap();
+    let i = verif_world::idx(fd).unwrap();
+    let (m1, raw1, raw2) = (any_mode(), kani::any::<usize>(), kani::any::<usize>());
+    kani::assume(raw1 != usize::MAX && raw2 != usize::MAX);
+    let ok = v_ok!(unsafe { poll.register(MFd(fd), Interest::READ, m1, Token { inner: TokenInner::from(raw1) }) });
+    assert!(ok, "C02.arm.register_ok");
+    verif_world::w().fds[i].readable = true;
+    let res = poll.poll(Some(Duration::ZERO));
+    let n1 = match &res { Ok(evs) => evs.len(), Err(_) => 99 };
+    assert!(n1 == 1, "C02.arm.first_report");
+    std::mem::forget(res);
+    let rearm: bool = kani::any();
+    let blink: bool = kani::any();
+    if blink {
+        // readiness goes away (observed by a wait) and comes back
+        verif_world::w().fds[i].readable = false;
+        let r = poll.poll(Some(Duration::ZERO));
+        let n = match &r { Ok(evs) => evs.len(), Err(_) => 99 };
+        assert!(n == 0, "C01.arm.no_event_while_not_ready");
+        std::mem::forget(r);
+        verif_world::w().fds[i].readable = true;
+    }
+    if rearm {
+        let ok = v_ok!(poll.reregister(MFd(fd), Interest::READ, m1, Token { inner: TokenInner::from(raw2) }));
+        assert!(ok, "C02.arm.reregister_ok");
+    }
+    let res2 = poll.poll(Some(Duration::ZERO));
+    match &res2 {
+        Ok(evs) => {
+            let expect = match m1 { Mode::Level => true, Mode::Edge => blink || rearm, Mode::OneShot => rearm };
+            assert!(evs.len() == expect as usize, "C02.arm.report_iff_level_or_new_transition_or_rearmed");
+            if expect {
+                let k: usize = evs[0].token.inner.into();
+                assert!(k == if rearm { raw2 } else { raw1 }, "C01.arm.event_carries_latest_token");
+                assert!(evs[0].readiness.readable && !evs[0].readiness.writable, "C02.arm.readiness");
+            }
+        }
+        Err(_) => assert!(false, "C02.arm.poll_ok"),
+    }
+    std::mem::forget(res2);
+    kani::cover!(rearm && blink);
     std::mem::forget(poll);
 }
 
